@@ -27,6 +27,11 @@ def c13_linecol(n):
         if SX.decide(SX.ch_eq(s[i], '\n')):
             line += 1
             last = i
+    # the same object queried again in descending and in an interleaved order (no state may leak between lookups)
+    order = list(range(n - 1, -1, -1)) + [i for pair in zip(range(0, n, 2), range(n - 1, -1, -2)) for i in pair]
+    for i in order:
+        SX.check(soup.char_pos_to_line(i) == res[i], 'C13:line-column-depends-on-lookup-order',
+                 lambda: {'source': s, 'offset': i, 'expected': repr(res[i])})
     return ('ok', tuple(res))
 
 
@@ -44,6 +49,8 @@ RDOCS = [
     lambda a, b: '$x' + a + '$ ' + b + 'xx',
     lambda a, b: '\\begin{itemize}\\item ' + a + 'b\\item a' + b + '\\end{itemize}',
     lambda a, b: '{' + a + '{b' + b + '}}%ab\n' + a,
+    lambda a, b: '\\x{xab}' + a + '\\x{xab}' + b + '\\y{xab}{xab}',
+    lambda a, b: '\\begin{itemize}\\item ab x\n\\item ab x\n\\item ' + a + b + '\\end{itemize}',
 ]
 
 
@@ -57,6 +64,15 @@ def c13_regex(di, pattern):
     except Exception as e:
         SX.check(False, 'C13:search_regex-raises:' + type(e).__name__, lambda: {'source': src, 'pattern': pattern, 'error': repr(e)[:200]})
         return ('raised',)
+    # expected: for every text leaf in the order of the text view, the matches inside it at leaf offset + match start
+    import re as _re
+    want = []
+    for leaf in soup.text:
+        p0 = getattr(leaf, 'position', None)
+        for mm in _re.finditer(pattern, leaf):
+            want.append((SX.raw(mm.group()), (p0 + mm.start()) if isinstance(p0, int) else None))
+    got = [(SX.raw(str(m)), m.position) for m in ms]
+    SX.check(got == want, 'C13:regex-matches', lambda: {'source': src, 'pattern': pattern, 'got': repr(got), 'expected': repr(want)})
     out = []
     for m in ms:
         txt = SX.raw(str(m))
